@@ -17,6 +17,7 @@ What is generated
 from __future__ import annotations
 
 import ast
+import copy
 
 from harness.common import SRC, TranslateError, ast_digest
 
@@ -91,6 +92,8 @@ def _key_source(node: ast.expr, fn: ast.AST) -> str:
         if isinstance(k, ast.Constant) and isinstance(k.value, str) and k.value.isidentifier():
             return f'(SGet "{k.value}" "{v.value.id}")'
         return 'SOther'
+    if isinstance(v, ast.Call) and isinstance(v.func, ast.Name) and v.func.id == 'conv_kv':
+        return 'SNew'                                     # the converted new value, inlined
     if isinstance(v, ast.Name):
         for n in ast.walk(fn):
             if isinstance(n, ast.Assign) and any(isinstance(t, ast.Name) and t.id == v.id for t in n.targets):
@@ -101,6 +104,87 @@ def _key_source(node: ast.expr, fn: ast.AST) -> str:
                     return 'SOrig'
         return 'SOther'
     return 'SOther'
+
+
+def _stores(fn: ast.AST) -> dict[str, int]:
+    """How often each plain name is bound inside `fn` (any binding form)."""
+    cnt: dict[str, int] = {}
+
+    def bump(name: str, n: int = 1) -> None:
+        cnt[name] = cnt.get(name, 0) + n
+    for n in ast.walk(fn):
+        if isinstance(n, ast.Name) and isinstance(n.ctx, (ast.Store, ast.Del)):
+            bump(n.id)
+        elif isinstance(n, ast.arg):
+            bump(n.arg)
+        elif isinstance(n, (ast.Global, ast.Nonlocal)):
+            for nm in n.names:
+                bump(nm, 2)
+        elif isinstance(n, ast.ExceptHandler) and n.name:
+            bump(n.name)
+        elif isinstance(n, (ast.Import, ast.ImportFrom)):
+            for a in n.names:
+                bump((a.asname or a.name).split('.')[0])
+        elif isinstance(n, (ast.FunctionDef, ast.AsyncFunctionDef, ast.ClassDef)) and n is not fn:
+            bump(n.name, 2)
+    return cnt
+
+
+def _inlinable(e: ast.AST) -> bool:
+    for x in ast.walk(e):
+        if isinstance(x, ast.Call):
+            f = x.func
+            if not ((isinstance(f, ast.Attribute) and f.attr in ('casefold', 'get')) or (isinstance(f, ast.Name) and f.id == 'conv_kv')):
+                return False
+        elif not isinstance(x, (ast.Name, ast.Attribute, ast.Constant, ast.BoolOp, ast.UnaryOp, ast.Compare, ast.Subscript, ast.Tuple,
+                                ast.expr_context, ast.boolop, ast.unaryop, ast.cmpop, ast.keyword)):
+            return False
+    return True
+
+
+class _Subst(ast.NodeTransformer):
+    def __init__(self, env: dict[str, ast.expr]) -> None:
+        self.env = env
+        self.changed = False
+
+    def visit_Name(self, node: ast.Name) -> ast.AST:
+        if isinstance(node.ctx, ast.Load) and node.id in self.env:
+            self.changed = True
+            return copy.deepcopy(self.env[node.id])
+        return node
+
+
+def _normalised(fn: ast.AST) -> ast.AST:
+    """A copy of `fn` in which every local that is bound exactly once, by a plain `name = <expression>`, is replaced
+    by that expression wherever it is read (key locals such as `old = (orig_val or '').casefold()`, boolean locals
+    such as `in_map = self in self.map.entities`, aliases such as `ix = self.by_class`).  Only used to *classify* the
+    index-update sites (is the key folded, where does it come from, which tests guard it)."""
+    fn = copy.deepcopy(fn)
+    cnt = _stores(fn)
+    env: dict[str, ast.expr] = {}
+    for n in ast.walk(fn):
+        tgt = val = None
+        if isinstance(n, ast.Assign) and len(n.targets) == 1:
+            tgt, val = n.targets[0], n.value
+        elif isinstance(n, ast.AnnAssign) and n.value is not None:
+            tgt, val = n.target, n.value
+        # (keys, tests and aliases only: names, attributes, subscripts, constants, boolean operators, comparisons and the
+        # calls .casefold() / .get(...) / conv_kv(...) — not `worldspawn = Entity.parse(...)`, which makes an object)
+        if isinstance(tgt, ast.Name) and cnt.get(tgt.id) == 1 and _inlinable(val):
+            env[tgt.id] = val
+    for _ in range(8):                   # locals defined in terms of other locals
+        sub = _Subst(env)
+        for k in list(env):
+            env[k] = sub.visit(copy.deepcopy(env[k]))
+        if not sub.changed:
+            break
+    else:
+        raise TranslateError(f'line {getattr(fn, "lineno", 0)}: cyclic local definitions')
+    return ast.fix_missing_locations(_Subst(env).visit(fn))
+
+
+def _exits(block: list[ast.stmt]) -> bool:
+    return bool(block) and isinstance(block[-1], (ast.Return, ast.Raise, ast.Continue, ast.Break))
 
 
 def _branch(tests: list[str]) -> str:
@@ -116,23 +200,42 @@ def _branch(tests: list[str]) -> str:
 
 
 def _guard_tests(fn: ast.AST, target: ast.AST) -> list[str]:
-    """Source text of the tests of all `if` statements enclosing `target` inside `fn` (body side only)."""
+    """Source text of the tests that hold when `target` inside `fn` is reached: the tests of all enclosing `if`
+    statements, and the negation of the test of every earlier `if c: ...; return/raise` of an enclosing block
+    (an early exit is `if c: ... else: <the rest of the block>`)."""
     out: list[str] = []
+
+    def block(stmts: list[ast.stmt], tests: list[str]) -> bool:
+        tests = list(tests)
+        for st in stmts:
+            if walk(st, tests):
+                return True
+            if isinstance(st, ast.If):
+                if _exits(st.body) and not _exits(st.orelse):
+                    tests.append('not (' + ast.unparse(st.test) + ')')
+                elif _exits(st.orelse) and not _exits(st.body):
+                    tests.append(ast.unparse(st.test))
+        return False
 
     def walk(node, tests) -> bool:
         if node is target:
             out.extend(tests)
             return True
         if isinstance(node, ast.If):
-            for ch in node.body:
-                if walk(ch, tests + [ast.unparse(node.test)]):
-                    return True
-            for ch in node.orelse:
-                if walk(ch, tests + ['not (' + ast.unparse(node.test) + ')']):
-                    return True
+            if block(node.body, tests + [ast.unparse(node.test)]):
+                return True
+            if block(node.orelse, tests + ['not (' + ast.unparse(node.test) + ')']):
+                return True
             return walk(node.test, tests)
-        for ch in ast.iter_child_nodes(node):
-            if walk(ch, tests):
+        for name, val in ast.iter_fields(node):
+            if isinstance(val, list) and val and all(isinstance(x, ast.stmt) for x in val):
+                if block(val, tests):
+                    return True
+            elif isinstance(val, list):
+                for ch in val:
+                    if isinstance(ch, ast.AST) and walk(ch, tests):
+                        return True
+            elif isinstance(val, ast.AST) and walk(val, tests):
                 return True
         return False
     walk(fn, [])
@@ -215,25 +318,75 @@ def _entity_list_writers(qual: str, fn: ast.AST, rel: str, out_list: list, out_s
 
 
 def _remove_ent_guards(fn: ast.FunctionDef) -> tuple[bool, bool]:
-    """VMF.remove_ent: is every index removal preceded (at the top level of the function) by an early `return` taken
-    when the item is the worldspawn / when the item is still in the entity list (it was added more than once)?"""
+    """VMF.remove_ent: are the index removals reached only when the item is not the worldspawn / is no longer in the
+    entity list (it may have been added more than once)?  Recognised: an earlier `if <a> or <b>: return` at the top
+    level of the function, or an enclosing `if <not a> and <not b>:`; a test may be held in a local.  The membership
+    test only counts when it is evaluated after `self.entities.remove(item)`."""
     if len(fn.args.args) != 2:
-        raise TranslateError(f'VMF.remove_ent: unexpected parameters')
+        raise TranslateError('VMF.remove_ent: unexpected parameters')
     item = fn.args.args[1].arg
-    spawn_guard = listed_guard = False
+    env: dict[str, tuple[ast.expr, bool]] = {}
+
+    def is_item(e: ast.AST) -> bool:
+        return isinstance(e, ast.Name) and e.id == item
+
+    def pos(t: ast.expr, removed: bool, depth: int = 0) -> set[str]:
+        """the facts among {spawn, listed} each of which makes `t` true (t: a disjunction)"""
+        if depth > 8:
+            return set()
+        if isinstance(t, ast.BoolOp) and isinstance(t.op, ast.Or):
+            return set().union(*(pos(x, removed, depth + 1) for x in t.values))
+        if isinstance(t, ast.UnaryOp) and isinstance(t.op, ast.Not):
+            return neg(t.operand, removed, depth + 1)
+        if isinstance(t, ast.Name) and t.id in env:
+            return pos(env[t.id][0], env[t.id][1], depth + 1)
+        if isinstance(t, ast.Compare) and len(t.ops) == 1:
+            a, b = t.left, t.comparators[0]
+            if isinstance(t.ops[0], ast.Is) and ((is_item(a) and _is_attr(b, 'spawn')) or (is_item(b) and _is_attr(a, 'spawn'))):
+                return {'spawn'}
+            if isinstance(t.ops[0], ast.In) and is_item(a) and _is_attr(b, 'entities') and removed:
+                return {'listed'}
+        return set()
+
+    def neg(t: ast.expr, removed: bool, depth: int = 0) -> set[str]:
+        """the facts that are excluded when `t` is true (t: a conjunction of negated facts)"""
+        if depth > 8:
+            return set()
+        if isinstance(t, ast.BoolOp) and isinstance(t.op, ast.And):
+            return set().union(*(neg(x, removed, depth + 1) for x in t.values))
+        if isinstance(t, ast.UnaryOp) and isinstance(t.op, ast.Not):
+            return pos(t.operand, removed, depth + 1)
+        if isinstance(t, ast.Name) and t.id in env:
+            return neg(env[t.id][0], env[t.id][1], depth + 1)
+        if isinstance(t, ast.Compare) and len(t.ops) == 1:
+            a, b = t.left, t.comparators[0]
+            if isinstance(t.ops[0], ast.IsNot) and ((is_item(a) and _is_attr(b, 'spawn')) or (is_item(b) and _is_attr(a, 'spawn'))):
+                return {'spawn'}
+            if isinstance(t.ops[0], ast.NotIn) and is_item(a) and _is_attr(b, 'entities') and removed:
+                return {'listed'}
+        return set()
+
+    excluded: set[str] = set()
+    removed = False
+    stores = _stores(fn)
     for st in fn.body:
         if any(isinstance(n, ast.Call) and isinstance(n.func, ast.Name) and n.func.id == '_remove_copyset' for n in ast.walk(st)):
+            if isinstance(st, ast.If) and not any(
+                    isinstance(n, ast.Call) and isinstance(n.func, ast.Name) and n.func.id == '_remove_copyset'
+                    for o in st.orelse for n in ast.walk(o)):
+                excluded |= neg(st.test, removed)
             break
-        if isinstance(st, ast.If) and len(st.body) == 1 and isinstance(st.body[0], ast.Return) and not st.orelse:
-            tests = st.test.values if isinstance(st.test, ast.BoolOp) and isinstance(st.test.op, ast.Or) else [st.test]
-            for t in tests:
-                if isinstance(t, ast.Compare) and len(t.ops) == 1 and isinstance(t.left, ast.Name) and t.left.id == item:
-                    rhs = t.comparators[0]
-                    if isinstance(t.ops[0], ast.Is) and _is_attr(rhs, 'spawn'):
-                        spawn_guard = True
-                    if isinstance(t.ops[0], ast.In) and _is_attr(rhs, 'entities'):
-                        listed_guard = True
-    return spawn_guard, listed_guard
+        if any(isinstance(n, ast.Call) and isinstance(n.func, ast.Attribute) and n.func.attr == 'remove'
+               and _is_attr(n.func.value, 'entities') for n in ast.walk(st)):
+            removed = True
+        if isinstance(st, ast.AnnAssign) and st.value is not None:
+            st = ast.Assign(targets=[st.target], value=st.value, lineno=st.lineno)
+        if isinstance(st, ast.Assign) and len(st.targets) == 1 and isinstance(st.targets[0], ast.Name) \
+                and stores.get(st.targets[0].id) == 1:
+            env[st.targets[0].id] = (st.value, removed)
+        if isinstance(st, ast.If) and _exits(st.body) and isinstance(st.body[-1], ast.Return) and not st.orelse:
+            excluded |= pos(st.test, removed)
+    return 'spawn' in excluded, 'listed' in excluded
 
 
 def translate() -> tuple[str, dict]:
@@ -244,6 +397,7 @@ def translate() -> tuple[str, dict]:
     spawn_writers: list[tuple[str, str, str, int]] = []
     key_writers: list[tuple[str, str, str, int]] = []     # func, how, file, line
     index_sites: list[tuple[str, str, str, str, bool, str, int]] = []
+    method_calls: list[tuple[str, str]] = []
     digests: dict[str, str] = {}
     for path in sorted(SRC.glob('*.py')):
         rel = path.name
@@ -286,7 +440,19 @@ def translate() -> tuple[str, dict]:
                             key_writers.append((qual, meth, rel, node.lineno))
                         elif meth not in KEYS_READ_ONLY:
                             raise TranslateError(f'{rel}:{node.lineno}: unknown method _keys.{meth} in {qual}')
-                    # ---- index updates: x.by_class[KEY].add(ENT)
+            # ---- index updates, classified on the normalised function (single-assignment locals inlined)
+            touches = any((isinstance(n, ast.Attribute) and n.attr in INDEXES) or (isinstance(n, ast.Name) and n.id == '_remove_copyset')
+                          for n in ast.walk(fn))
+            if rel == 'vmf.py' and cls is not None:
+                for n in ast.walk(fn):
+                    if isinstance(n, ast.Call) and isinstance(n.func, ast.Attribute) and isinstance(n.func.value, ast.Name) \
+                            and n.func.value.id == 'self':
+                        method_calls.append((qual, f'{cls}.{n.func.attr}'))
+            fn0, fn = fn, (_normalised(fn) if touches else fn)
+            for node in (ast.walk(fn) if touches else ()):
+                if isinstance(node, ast.Call) and isinstance(node.func, ast.Attribute):
+                    recv, meth = node.func.value, node.func.attr
+                    # x.by_class[KEY].add(ENT)
                     if isinstance(recv, ast.Subscript) and _index_of(recv.value) is not None:
                         ix = _index_of(recv.value)
                         if meth == 'add':
@@ -346,6 +512,10 @@ def translate() -> tuple[str, dict]:
         'Inductive keysrc := SGet (key ent : string) | SOrig | SNew | SLitKey | SOther.',
         'Definition index_key_sources : list (string * string * bool * keysrc * string * string) := [',
         ';\n'.join(f'  ("{f}", "{ix}", {"true" if a else "false"}, {src}, "{ent}", "{br}")' for f, ix, a, src, ent, br in key_sources),
+        '].',
+        '(* calls `self.<method>(...)` from a function that touches the indexes to a method that has index sites *)',
+        'Definition index_writer_calls : list (string * string) := [',
+        ';\n'.join(f'  ("{a}", "{b}")' for a, b in sorted({(a, b) for a, b in method_calls if b in {s[0] for s in index_sites} and a != b})),
         '].',
         '(* every update of by_class / by_target: function, index, is_add, class of the key expression, guarded *)',
         'Definition index_sites : list (string * string * bool * keyclass * bool) := [',
